@@ -5,7 +5,7 @@ Observers over a GTIRB IR: canonical (UUID-free) dump and whole-IR validator.
 import re
 import uuid as _uuid
 
-TEMP_RE = re.compile(r"^(\.?Lp\d+_\d+)_(\d+)$")
+TEMP_RE = re.compile(r"^((?:\.L|L|\$)p\d+_\d+)_(\d+)$")
 
 
 class Canon:
